@@ -2591,10 +2591,36 @@ class Interp:
                         sub_state.store.update(dict(fn[2][1]))
                 paths = self.run(callee, bound, sub_state,
                                  self_term=self_term)
+                # a list / dict handed to the callee by NAME and changed there
+                # in place (chunks.append(..), never rebound) is changed for
+                # the caller too
+                shared_back = []
+                try:
+                    arg_nodes = list(getattr(n, 'args', []) or [])
+                except AttributeError:
+                    arg_nodes = []
+                if arg_nodes and not any(isinstance(a_, ast.Starred)
+                                         for a_ in arg_nodes):
+                    a_ = callee.node.args
+                    pos_names = [x.arg for x in a_.posonlyargs + a_.args]
+                    if self_term is not None:
+                        pos_names = pos_names[1:]
+                    rebound = {x.id for x in ast.walk(callee.node)
+                               if isinstance(x, ast.Name) and
+                               isinstance(x.ctx, ast.Store)}
+                    for i_, an in enumerate(arg_nodes):
+                        if isinstance(an, ast.Name) and i_ < len(pos_names) \
+                                and pos_names[i_] not in rebound and \
+                                an.id in caller_store:
+                            shared_back.append((pos_names[i_], an.id))
                 for p in paths:
                     s4 = p.state
                     callee_store = s4.store
                     s4.store = dict(caller_store)
+                    for prm_, nm_ in shared_back:
+                        v_ = callee_store.get(prm_)
+                        if v_ is not None and v_ != bound.get(prm_):
+                            s4.store[nm_] = v_
                     if closure:
                         for nn, vv in callee_store.items():
                             if nn in caller_store and nn not in lnames:
